@@ -702,6 +702,67 @@ func c13SuiteHandshake(tier string) []c13Input {
 			_, _ = p.recvMsg()
 		})})
 	}
+	// oversized handshake ads sent in 16 KiB frames: a reader with a 4 KiB cap must stop taking
+	// bytes off the connection after the cap plus a frame or two, whichever ad it is reading
+	sendFramed := func(p *peerConn, payload []byte) {
+		const fr = 16384
+		for off := 0; off < len(payload); off += fr {
+			end, flag := off+fr, byte(0)
+			if end >= len(payload) {
+				end, flag = len(payload), 1
+			}
+			if _, err := p.end.Write(refcodec.MkFrame(flag, payload[off:end])); err != nil {
+				return
+			}
+		}
+	}
+	for _, sz := range []int{200000, 900000} {
+		sz := sz
+		big := func(a *wireAd) []byte { return a.setS("Pad", strings.Repeat("p", sz)).encode(false) }
+		in = append(in, c13Input{entry: "client.serverAd", class: fmt.Sprintf("framed-oversize-%d", sz), desc: fmt.Sprintf("server ad with a %d-byte attribute in 16 KiB frames", sz), served: sz + 400, cap: 4096, frame: 16384, run: func() (int, error) {
+			cc := baseCfg(security.SecurityPreferred, security.SecurityOptional, []security.AuthMethod{mCTB}, []security.CryptoMethod{security.CryptoAES}, false)
+			cc.Command = 5
+			r := hsRun(hsOpts{ClientCfg: cc, Watchdog: 120 * time.Second, ServerScript: func(e *netsim.End) error {
+				p := &peerConn{end: e}
+				if _, err := p.recvMsg(); err != nil {
+					return err
+				}
+				sendFramed(p, big(goodServerAd("YES")))
+				return fmt.Errorf("script done")
+			}})
+			return r.C.End.BytesRead, r.C.Err
+		}})
+		in = append(in, c13Input{entry: "client.resumeReply", class: fmt.Sprintf("framed-oversize-%d", sz), desc: fmt.Sprintf("reply to a resumption request: AUTHORIZED with a %d-byte attribute in 16 KiB frames", sz), served: sz + 400, cap: 4096, frame: 16384, run: func() (int, error) {
+			cache := security.NewSessionCache()
+			mc, err := security.MintClaimSession(cache, security.MintClaimOptions{Sinful: "<" + hsServerAddr + ">", Birthdate: 1700000000, SequenceNum: 9})
+			if err != nil {
+				return 0, nil
+			}
+			cc := baseCfg(security.SecurityOptional, security.SecurityOptional, nil, []security.CryptoMethod{security.CryptoAES}, false)
+			cc.SessionCache, cc.SessionID, cc.Command = cache, mc.SessionID(), 5
+			r := hsRun(hsOpts{ClientCfg: cc, Watchdog: 120 * time.Second, ServerScript: func(e *netsim.End) error {
+				p := &peerConn{end: e}
+				if _, err := p.recvMsg(); err != nil {
+					return err
+				}
+				sendFramed(p, big(newWireAd().setS("ReturnCode", "AUTHORIZED").setS("Sid", mc.SessionID())))
+				return fmt.Errorf("script done")
+			}})
+			return r.C.End.BytesRead, r.C.Err
+		}})
+		in = append(in, c13Input{entry: "server.clientAd", class: fmt.Sprintf("framed-oversize-%d", sz), desc: fmt.Sprintf("client ad with a %d-byte attribute in 16 KiB frames", sz), served: sz + 400, cap: 4096, frame: 16384, run: func() (int, error) {
+			sc := baseCfg(security.SecurityPreferred, security.SecurityOptional, []security.AuthMethod{mCTB}, []security.CryptoMethod{security.CryptoAES}, true)
+			r := hsRun(hsOpts{ServerCfg: sc, Watchdog: 120 * time.Second, ClientScript: func(e *netsim.End) error {
+				p := &peerConn{end: e}
+				sendFramed(p, append(refcodec.EncInt(dcAuthenticate), big(newWireAd().setS("AuthMethods", "CLAIMTOBE"))...))
+				return fmt.Errorf("script done")
+			}})
+			if r.S.Neg != nil {
+				security.GetSessionCache().Invalidate(r.S.Neg.SessionId)
+			}
+			return r.S.End.BytesRead, r.S.Err
+		}})
+	}
 	// oversized handshake ads (bounded reader must stop at its cap)
 	for _, sz := range []int{4000, 5000, 200000, 900000} {
 		sz := sz
@@ -976,7 +1037,7 @@ func C13Plan() *vlib.Plan {
 	p := &vlib.Plan{
 		RerunIntersect: true,
 		Property:       "C13", Level: "exploration",
-		Rule:   "Bounded structure-aware exhaustion of every decoder entry point: (stream) 5 receive entry points x {plain, AES-GCM} x all 1-byte strings, all strings of 2-3 (thorough 4) bytes over a 16-value header alphabet, end flag x length boundary product x {no, partial, full body}, runs of 10 / 10^3 / 2*10^5 empty and 1-byte partial frames; (message) 11 typed/ClassAd readers + GetBytes(n) for 17 boundary n, x {one frame, 1-byte frames, missing end} x both modes x payloads = boundary integer (17 values from MinInt64 to MaxInt64) followed by 9 string shapes (empty, unterminated, marker, cap-1/cap/cap+1/10xcap, 100 KB), every truncation of a valid ad, count field over the catalogue, secret marker followed by 10 B..900 KB, ads of 2/5/50 attributes (plain or marker+secret, both string forms) each below the cap but summing above it, every length-prefixed string <= 4 bytes over {Z,K,M,NUL,=} as an ad's only expression (marker with / without its terminator), 20000 tiny expressions; (handshake) real ClientHandshake / ServerHandshake against scripted peers that put every catalogue integer into every length/count/status field they read (server ad, method reply, 5 exchangeKey fields, post-auth ad, SSL message length, FS result, 6 TOKEN step-2 fields; client ad, command, bitmask, CLAIMTOBE, 3 TOKEN step-1 fields, resumption request; through a scripted TLS-over-CEDAR client: the tunnelled TLS message length and the SciToken size read over the established TLS connection) and 4 KB..900 KB oversize ads; (text) all strings <= 5 (thorough 6) over 12-symbol alphabets through 8 parsers, crypto-state blob length fields. Oracle per input: no panic (recovered in the worker), no abort (out-of-memory under ulimit -v 6 GiB, stack overflow under a 16 MiB stack, attributed by the parent to the input in flight), no spin (15 s of CPU, or 5 min of wall-clock time, on one input), TotalAlloc <= 256 x (bytes served + cap) + 4 MiB, capped readers consume <= cap + one frame. Non-trivial = the decoder was invoked on the input (distinct inputs by construction).",
+		Rule:   "Bounded structure-aware exhaustion of every decoder entry point: (stream) 5 receive entry points x {plain, AES-GCM} x all 1-byte strings, all strings of 2-3 (thorough 4) bytes over a 16-value header alphabet, end flag x length boundary product x {no, partial, full body}, runs of 10 / 10^3 / 2*10^5 empty and 1-byte partial frames; (message) 11 typed/ClassAd readers + GetBytes(n) for 17 boundary n, x {one frame, 1-byte frames, missing end} x both modes x payloads = boundary integer (17 values from MinInt64 to MaxInt64) followed by 9 string shapes (empty, unterminated, marker, cap-1/cap/cap+1/10xcap, 100 KB), every truncation of a valid ad, count field over the catalogue, secret marker followed by 10 B..900 KB, ads of 2/5/50 attributes (plain or marker+secret, both string forms) each below the cap but summing above it, every length-prefixed string <= 4 bytes over {Z,K,M,NUL,=} as an ad's only expression (marker with / without its terminator), 20000 tiny expressions; (handshake) real ClientHandshake / ServerHandshake against scripted peers that put every catalogue integer into every length/count/status field they read (server ad, method reply, 5 exchangeKey fields, post-auth ad, SSL message length, FS result, 6 TOKEN step-2 fields; client ad, command, bitmask, CLAIMTOBE, 3 TOKEN step-1 fields, resumption request; through a scripted TLS-over-CEDAR client: the tunnelled TLS message length and the SciToken size read over the established TLS connection) and 4 KB..900 KB oversize ads (200 KB / 900 KB also in 16 KiB frames, for the server ad, the client ad and the reply to a resumption request, with the bytes taken off the connection measured against the 4 KiB cap); (text) all strings <= 5 (thorough 6) over 12-symbol alphabets through 8 parsers, crypto-state blob length fields. Oracle per input: no panic (recovered in the worker), no abort (out-of-memory under ulimit -v 6 GiB, stack overflow under a 16 MiB stack, attributed by the parent to the input in flight), no spin (15 s of CPU, or 5 min of wall-clock time, on one input), TotalAlloc <= 256 x (bytes served + cap) + 4 MiB, capped readers consume <= cap + one frame. Non-trivial = the decoder was invoked on the input (distinct inputs by construction).",
 		Assume: []string{"inputs outside the generated grammar are not covered (the property's fuzzing wording is claimed in this bounded form)", "memory judged by Go's TotalAlloc; SCITOKENS/KERBEROS readers not reached"},
 	}
 	p.Gen = func(tier string, yield func(vlib.Case)) {
